@@ -72,7 +72,7 @@ public:
     : buffer_(buffer), size_(total_sz) {
     }
 
-    InputMemoryStream(const std::vector<uint8_t>& data) : buffer_(&data[0]), size_(data.size()) {
+    InputMemoryStream(const std::vector<uint8_t>& data) : buffer_(data.empty() ? 0 : &data[0]), size_(data.size()) {
     }
  
     template <typename T>
@@ -153,7 +153,7 @@ public:
     }
 
     OutputMemoryStream(std::vector<uint8_t>& buffer)
-    : buffer_(&buffer[0]), size_(buffer.size()) {
+    : buffer_(buffer.empty() ? 0 : &buffer[0]), size_(buffer.size()) {
     }
 
     template <typename T>
